@@ -18,6 +18,8 @@ structure Origin where
   headers : List (Bytes × Bytes)
   body : Bytes
   chunked : Bool
+  /-- the origin connection breaks after this many body bytes -/
+  readErrAt : Option Nat := none
   deriving Repr
 
 inductive Op where
@@ -42,7 +44,9 @@ def pOp : P Op := do
     let hs ← pList pPair
     let b ← pBytes
     let ch ← pBool
-    pure (.origin { path := p, status := st, headers := hs, body := b, chunked := ch })
+    let re ← pInt
+    pure (.origin { path := p, status := st, headers := hs, body := b, chunked := ch,
+                    readErrAt := if re < 0 then none else some re.toNat })
   else if k = "R" then
     let m ← pBytes
     let p ← pBytes
@@ -136,6 +140,15 @@ def judge (force : Nat) (st : St) (method path : Bytes) (hs : List (Bytes × Byt
   | none => add st1 [] [] "no-origin"
   | some c =>
     let curDoNotCache := Spec.C10.carriesAny (hdrOf c.headers)
+    -- C13: whoever is served WITHOUT contacting the origin must never get a strict prefix of a body
+    let isStrictPrefix := o.body ≠ [] && (st.all.filter (·.path == path)).any (fun x => o.body.length < x.body.length && x.body.take o.body.length == o.body) &&
+      !(st.all.filter (·.path == path)).any (·.body == o.body)
+    if o.contacts == 0 ∧ isStrictPrefix then
+      add st1 ["bad:C13:partial-data-of-a-failed-fetch-served-from-the-cache", "bad:C05:truncated-body-served"] [] "hit:truncated" else
+    if o.contacts > 0 ∧ c.readErrAt.isSome then
+      -- the failing fetch itself: its own client may see a broken response (judged in the schedule
+      -- replay); nothing to mirror
+      add st1 [] [] "fill:origin-read-error" else
     if o.contacts > 0 then
       -- C05 on a filling / passing exchange: mirror of the CURRENT origin answer, or (origin failing,
       -- stale-if-error granted) an earlier complete answer
